@@ -31,6 +31,7 @@ META = {
                  'cuments against a denotational reference; stack-machine branch facts; who-may-write on document objects',
 }
 META['text'] += ' (m, refined) documents handed to the layout and the module constants are unchanged by it (before/after snapshots on interpreted layouts); the stack-machine rules (a,c,e) apply while a loop is in the recognised dispatch form - a restructured loop is decided by (n) alone.'
+META['text'] += ' Round 5: layout model, immutability model and renderer model also run documents / sdoc streams scaled one past every size constant mined from layout.py, doc.py, doctypes.py, render.py, utils.py (and past a fixed small scale).'
 
 
 def _w(m, ln):
